@@ -40,6 +40,7 @@ TEMPLATES = {
     "unicode_before_nested": ("    assert ('é€', x0, [x1]) == ('é€', snapshot(c0), snapshot([c1, c2]))\n", ["x0", "x1", "c0", "c1", "c2"]),
     "unicode_multiline_literal_replaced": ("    assert [x0, 'ß', x1] == snapshot([\"\"\"é\nüö\"\"\", 'ß', \"\"\"\U0001F600\n€\"\"\"])  # ü\n", ["x0", "x1"]),
     "unicode_member_next_to_multiline_literal": ("    assert x0 in snapshot([\"\"\"é\nüö\"\"\"])\n    s = snapshot({1: \"\"\"é\nüö\"\"\"})\n    assert s[2] == x1\n", ["x0", "x1"]),
+    "parenthesized_elements": ("    assert [x0, x1] == snapshot([(c0), c1, (c2)])\n    assert P(a=x0) == snapshot(P(a=(c0), b=(7)))\n    assert {1: x1} == snapshot({(1): (c1), 2: (c2)})\n", ["x0", "x1", "c0", "c1", "c2"]),
     "unicode_list_mixed": ("    a = 'äöü'; assert [x0, x1, 'ß'] == snapshot([c0, 'ß', c1]); b = '✓'\n", ["x0", "x1", "c0", "c1"]),
     "in_multiline_trailing_comma": ("    s = snapshot([\n        c0,\n        c1,\n    ])\n    assert x0 in s\n", ["x0", "c0", "c1"]),
     "in_spaces_before_bracket": ("    assert x0 in snapshot([c0, c1 ])\n    assert x1 in snapshot( [ c2 , ] )\n", ["x0", "x1", "c0", "c1", "c2"]),
